@@ -1,5 +1,5 @@
-CONSTANTS Accts = {1}  MaxNonce = 3  MaxBal = 4  ParkedAcctLimit = 15  ParkedTotalLimit = 2  MaxOps = 4  Dev = {}
-  Variants = {1, 2}  Costs = {1, 2}  BalChoices = {0, 2, 4}
+CONSTANTS Accts = {1, 2}  MaxNonce = 2  MaxBal = 4  ParkedAcctLimit = 15  ParkedTotalLimit = 2  MaxOps = 3  Dev = {}
+  Variants = {1}  Costs = {1, 2}  BalChoices = {0, 2, 4}
 INIT Init
 NEXT Next
 VIEW View
